@@ -28,7 +28,8 @@ record or the record is rewritten/deleted on every path afterwards.  C09.5
 removal: the record is deleted before the instance is forgotten, every
 removal of an instance from the cell goes through the one overridable
 funnel (Loader.remove_app), and /finished is written before /scheduled is
-deleted.
+deleted.  C09.6 (thorough tier, whole package): instance placement records
+are written or deleted only by the scheduler master/loader.
 Does NOT decide equality of the whole stored tree with the whole model over
 histories of ZooKeeper events.
 """
@@ -184,10 +185,7 @@ def _payload(ctx, master):
     for sub in K.walk_no_nested(pdata.node):
         if isinstance(sub, ast.Return) and isinstance(sub.value, ast.Dict):
             for key, val in zip(sub.value.keys, sub.value.values):
-                src = N.txt(val)
-                if isinstance(val, ast.Name) and val.id in defs and \
-                        len(defs[val.id]) == 1:
-                    src = N.txt(defs[val.id][0])
+                src = K.rtxt(pdata, val)
                 written[key.value] = (src, sub)
     ctx.require(written, 'record dictionary of _placement_data')
     model = 'self.cell.apps[%s]' % param
@@ -201,7 +199,8 @@ def _payload(ctx, master):
     cnt = written.get('identity_count', (None, None))
     cdefs = defs.get('identity_count', [])
     ok = cnt[0] is not None and any(
-        N.txt(v).endswith('identity_group_ref.count') for v in cdefs)
+        K.rtxt(pdata, v).endswith('identity_group_ref.count')
+        for v in cdefs)
     ctx.ob('C09.2', pdata, cnt[1], ok,
            "record key 'identity_count' is the group's count",
            construct='record key identity_count')
@@ -300,7 +299,8 @@ def _reschedule(ctx, master):
     for node, op, rec, _call in ops:
         loop = K.enclosing_for(graph, node)
         names = N.for_targets(loop) if loop is not None else set()
-        mine = set(f for f in facts[node] if f.mentions & names)
+        mine = set(f for f in N.raw_only(facts[node])
+                   if f.mentions & names)
         if op == 'delete':
             ctx.ob('C09.3', func, node, mine == want_del,
                    'old record removed exactly under `before and before != '
@@ -317,9 +317,15 @@ def _reschedule(ctx, master):
                    'the record is created under the new server',
                    construct='put path server = after')
         if loop is not None:
-            ctx.ob('C09.3', func, loop,
-                   N.txt(loop.ast.iter) == 'changed_placement',
-                   'publication ranges over the changed placements',
+            fdefs = M.local_defs(func)
+            dom = loop.ast.iter
+            src = fdefs.get(N.txt(dom), [dom])
+            okd = len(src) == 1 and isinstance(src[0], ast.ListComp) and \
+                N.txt(src[0].generators[0].iter) == 'placement' and \
+                len(src[0].generators[0].ifs) == 1
+            ctx.ob('C09.3', func, loop, okd,
+                   'publication ranges over the changed placements (the '
+                   'filtered result of this cycle)',
                    construct='%s loop domain' % op)
     for sub in K.walk_no_nested(func.node):
         if isinstance(sub, ast.ListComp) and \
@@ -503,8 +509,47 @@ def _removal(ctx, master):
                            'deleted')
 
 
+def _record_owner(ctx):
+    """Thorough tier: over the whole package, instance placement records
+    (z.path.placement(<server>, <instance>)) are written or deleted only by
+    the master and the loader."""
+    index = ctx.index
+    index.load_all()
+    writers = ('put', 'update', 'delete', 'create', 'set', 'ensure_deleted',
+               'ensure_exists')
+    inside = 0
+    for mod in index.modules.values():
+        for func in mod.all_functions():
+            defs = M.local_defs(func)
+            for sub in K.walk_no_nested(func.node):
+                if not isinstance(sub, ast.Call):
+                    continue
+                name = K.callee_text(sub).split('.')[-1]
+                if name not in writers:
+                    continue
+                hit = None
+                for arg in sub.args[:3]:
+                    rec = M.is_record_path(arg, defs)
+                    if rec is not None:
+                        hit = rec
+                if hit is None:
+                    continue
+                ok = mod.name in (K.MASTER, K.LOADER)
+                inside += ok
+                ctx.ob('C09.6', func, sub, ok,
+                       'an instance placement record is written/deleted '
+                       'only by the scheduler master/loader' if ok else
+                       'an instance placement record is written/deleted '
+                       'outside the master/loader: the publication rules do '
+                       'not see it')
+    ctx.require(inside >= 5, 'record writers inside master/loader (positive '
+                             'example, found %d)' % inside)
+
+
 def check(ctx):
     master = ctx.index.get_class(K.MASTER, 'Master')
+    if ctx.tier == 'thorough':
+        _record_owner(ctx)
     _startup(ctx, master)
     _payload(ctx, master)
     _reschedule(ctx, master)
